@@ -85,6 +85,22 @@ def run(tier, seed, t0):
         stats['evaluations'] += len(ocases)
         if not stats['samples']:
             stats['samples'] = [{'type': r['type'], 'value': r['repr'], 'bytes': r['impl']} for r in recs[5:400:60] if r['status'] == 'run']
+        # keys that differ only in data the format does not carry (SocketAddrV6: flowinfo, scope_id): not key types of
+        # the model (Ty.key_ok), so no theorem speaks about them; the implementation is asked (finding F22)
+        if cfg.startswith('std'):
+            r = run_cases(exe, [case_line('k6', 'sockv6keys', '-', '-')]).get('k6')
+            stats['evaluations'] += 1
+            if not r or ';' not in r:
+                disagreements.append({'what': 'sockv6keys gave no answer: %r [%s]' % (r, cfg)})
+            else:
+                for part in r.split(';'):
+                    kind = part.split(' ')[0]
+                    f = dict(x.split('=', 1) for x in part.split(' ', 1)[1].replace('de=', 'de=', 1).split(' ', 1) if '=' in x)
+                    if f.get('de') != 'ok ' + f.get('n', '?'):
+                        failures.append({'class': 'uncarried-key-collision', 'key': 'sockv6 ' + kind,
+                                         'what': 'a BTree%s of %s SocketAddrV6 keys that differ only in scope_id serializes, but decoding the bytes gives %s [%s]'
+                                                 % ('Set' if kind == 'set' else 'Map', f.get('n'), f.get('de'), cfg), 'cfg': cfg,
+                                         'replay_cmd': "printf 'k\\tsockv6keys\\t-\\t-\\n' | " + exe})
         # recursive derived items (Tree, List, Json, Rec) through their finite unfoldings
         rstats, rdis, rfails = reccorr.rec_stage(cfg, exe, driver, seed, tier)
         disagreements += rdis
